@@ -87,6 +87,11 @@ CHECKS = {
    text="Specification -> code, exhaustive: ModeCompat.tla enumerates all 54 combinations (index mode that created the directory) x (directory state: absent, freshly opened, written over several segments, merged, crashed in the middle of a commit, crashed right after the creation of a new data file - the last two built as crash images from hook-recorded file mutations) x (index mode used to reopen); the replayer builds each with FileIO and MMap and several generated contents, opens it with the reopen mode and records the error flag, a digest of the directory tree before/after, and a digest of the full observation under the creating mode (on a copy) and under the reopen mode. TLC (ModeCompat!Admitted) requires: data of the other class -> error and identical directory digest; RAM <-> RAM on key/value data -> success and identical observation digest; same mode -> success and identical observation; no data yet -> unconstrained.",
    note="Digests are computed by the replayer (sha1); equality is judged by TLC. Trusts TLC and the replayer.",
    technique="TLC-enumerated combinations (ModeCompat.tla) replayed into the code + TLA+ trace validation"),
+ "C02": dict(
+   cat="model_checking", design="DESIGN.md section 6 C02",
+   text="Trace validation of single-bucket Put/PutWithTimestamp/Delete histories in HintBPTSparseIdxMode (segments of 128-512 bytes so that most keys live in sealed segments reached through the on-disk B+ tree and root-index files; FileIO and MMap; Close/Open every ~12 transactions): after every transaction Get of the key universe and, at intervals and after every reopen, a full observation (GetAll) are recorded, and TLC accepts them only if they equal the ordered-map-with-TTL model (Nuts.tla/KVSpec.tla). RangeScan and PrefixScan are executed and recorded too, but on the pinned tree they deviate (known finding F-C02-1) and are not constrained.",
+   note="Weaker than the statement: only Get and GetAll are judged in sparse mode; RangeScan/PrefixScan are a recorded known finding whose deviant rule admits any result. Multi-bucket sparse histories, failed commits in sparse mode and sparse crash images showed further defects in probes (DESIGN.md) and are outside this check. Trusts TLC and the recording wrapper.",
+   technique="TLA+ trace validation with TLC (code -> spec) + bounded model checking of Nuts.tla"),
  "C01": dict(
    cat="model_checking", design="DESIGN.md section 6 C01",
    text="Trace validation: seeded random KV histories (multi-bucket, TTL on both sides of expiry, segments of 128-512 bytes so nearly every transaction rotates, reopen) are executed on the real library in HintKeyValAndRAMIdxMode and HintKeyAndRAMIdxMode x FileIO and MMap, every call is recorded, and TLC accepts the trace only if every Get/GetAll/RangeScan/PrefixScan/PrefixSearchScan result equals the KVSpec ordered-map-with-TTL result on the specification state (Nuts.tla). The API-grain design is model-checked exhaustively for a small universe (NutsMC_kv.cfg).",
